@@ -82,7 +82,9 @@ Bodies == <<
   <<Put(<<WBq(<<Put(<<SQ("\\")>>)>>)>>)>>,
   <<Sub(<<Exit("5")>>), Put(<<P("?")>>)>>,
   <<Put(<<SQ("a:")>>)>>,
-  <<Put(<<DQ(L("'"))>>), Put(<<DQ(B("\\") \o B("$"))>>)>> >>    \* 45
+  <<Put(<<DQ(L("'"))>>), Put(<<DQ(B("\\") \o B("$"))>>)>>,      \* 45
+  <<Put(<<L("probe")>>)>>,
+  <<Put(<<SQ("probe a  b")>>)>> >>
 
 NeedsBq(b) == LET t == BodyText(b) IN \E i \in DOMAIN t : t[i] \in BqSpecial(TRUE)
 (* the bodies also written with backquotes: number 1 and those whose text   *)
@@ -107,8 +109,10 @@ Exprs == <<
   L("08"), L("1+(2"), L("x==5?y:7") >>
 
 ---------------------------------------------------------------------------
-(* the unit alphabet: Core (partners from C01), then the new units *)
+(* the unit alphabet: Core (partners: C01 units, one arithmetic expansion   *)
+(* and one substitution that only sets a status), then the new units        *)
 Core == L("a") \o L(":") \o WSp \o B(" ") \o P("x") \o DQ(P("x")) \o SQ("") \o L("*") \o DQ(L(" ")) \o P("?")
+        \o WSw("x", FALSE, "=", L("c")) \o WAr(L("1")) \o C(<<St("2")>>)
 NCore == Len(Core)
 
 RECURSIVE SeqOfSet(_)
@@ -137,6 +141,8 @@ Nested ==
   \o DQ(WTrim("x", "%", TRUE, DQ(<<CsPar[12]>>)))
   \o Map(LAMBDA i : DQ(L("a") \o <<CsPar[i]>> \o L("b"))[1], <<1, 6, 33>>)
   \o Map(LAMBDA u : DQ(<<u>> \o B("\""))[1], CsBq)
+  \* no substitution at all: "or zero if there was none" (2.9.1)
+  \o WSw("x", FALSE, "+", L("a"))
 New == Plain1 \o Quoted \o Nested
 U == Core \o New
 NU == Len(U)
@@ -148,7 +154,7 @@ RawTok == <<"\\\\", "\\$", "\\`", "\\\"", "\\a", "\\", "$", "\"", "a", " ">>
 NRaw == Len(RawTok)
 
 ---------------------------------------------------------------------------
-CtxSeq == <<"arg", "for", "assign", "asgseq", "export", "noname", "case", "pat", "redir", "here">>
+CtxSeq == <<"arg", "for", "assign", "asgseq", "export", "noname", "case", "pat", "redir", "here", "asgcs", "cmdname", "hereq">>
 StateTable == <<
   [x |-> Unset,        y |-> Unset,     pos |-> <<>>,           ifs |-> Val(" \t\n"), nounset |-> FALSE, st |-> "0"],
   [x |-> Val("a b"),   y |-> Val("2"),  pos |-> <<"p q">>,      ifs |-> Unset,        nounset |-> FALSE, st |-> "3"],
@@ -157,7 +163,8 @@ StateTable == <<
   [x |-> Val("*"),     y |-> Val(" "),  pos |-> <<>>,           ifs |-> Val(""),      nounset |-> FALSE, st |-> "0"],
   [x |-> Unset,        y |-> Val("7"),  pos |-> <<>>,           ifs |-> Val(" \t\n"), nounset |-> TRUE,  st |-> "0"],
   [x |-> Val("a:b"),   y |-> Val("0"),  pos |-> <<"a:", "b">>,  ifs |-> Val(" :"),    nounset |-> FALSE, st |-> "1"],
-  [x |-> Val("1+2"),   y |-> Val(""),   pos |-> <<>>,           ifs |-> Val("+"),     nounset |-> FALSE, st |-> "0"] >>
+  [x |-> Val("1+2"),   y |-> Val(""),   pos |-> <<>>,           ifs |-> Val("+"),     nounset |-> FALSE, st |-> "0"],
+  [x |-> Unset,        y |-> Val(""),   pos |-> <<>>,           ifs |-> Val(" \t\n"), nounset |-> FALSE, st |-> "4"] >>
 
 ---------------------------------------------------------------------------
 VARIABLES vfam, vws
@@ -198,10 +205,10 @@ Words == IF vfam = "raw" THEN <<RawUnit, DQ(RawUnit)>> ELSE <<Word>>
 
 (* words of two and more units: a reduced fan unless Wide *)
 CtxFor(w) == IF vfam = "raw" THEN {1, 3, 10}
-             ELSE IF Len(vws) = 1 \/ Wide THEN DOMAIN CtxSeq ELSE {1, 3, 6, 7, 10}
+             ELSE IF Len(vws) = 1 \/ Wide THEN DOMAIN CtxSeq ELSE {1, 3, 6, 7, 10, 11, 12}
 StatesFor(w) == IF vfam = "raw" THEN {1}
                 ELSE IF Len(vws) = 1 \/ Wide THEN DOMAIN StateTable
-                ELSE {s \in DOMAIN StateTable : (Hash(vws, 1) + s * 3 + Seed) % 8 < 3}
+                ELSE {s \in DOMAIN StateTable : (Hash(vws, 1) + s * 4 + Seed) % 9 < 3}
 
 Cases(w) ==
   { <<c, s, Outcome(CtxSeq[c], w, StateTable[s])>> : c \in CtxFor(w), s \in StatesFor(w) }
@@ -311,7 +318,8 @@ LawSameValue ==
 LawConservative ==
   \A i \in 1..NCore, j \in 1..NCore : \A st \in States :
     LET w == <<U[i], U[j]>> IN
-    (U[i].t # "sp" /\ U[j].t # "sp" /\ U[i] # L("*")[1] /\ U[j] # L("*")[1] /\ st.x # Val("*")) =>
+    (U[i].t # "sp" /\ U[j].t # "sp" /\ Pure(<<U[i], U[j]>>) /\ U[i] # L("*")[1] /\ U[j] # L("*")[1] /\ st.x # Val("*")
+       /\ ~(U[i].t = "par" /\ U[i].m = "sw" /\ U[j] = U[i])) =>
       LET a == Fields(w, st)
           b == ExpandWith(w, st, FALSE)
       IN OkF(a) => (b.k = "ok" /\ a.f = b.f /\ a.x = b.x /\ a.y = b.y)
